@@ -16,6 +16,7 @@ from vmon import core, gen, contracts
 from vmon import refmodel as rm
 from vmon.props import C01, C02
 
+ANCHORS = ['evo/core/metrics.py', 'evo/core/units.py', 'evo/main_ape.py', 'evo/main_rpe.py', 'evo/core/result.py']
 LEVEL = "exploration"
 SHARDS = {"quick": 8, "thorough": 16}
 RULE = ("(a) error arrays of 1..1e5 (quick) / 1e6 (thorough) values, magnitudes 1e-12..1e6, "
